@@ -1,4 +1,4 @@
-/* Continuations that call back into the request table (used only by the cancelAll_reentrant proofs, -DREENTRANT_CONTINUATIONS):
+/* Continuations that call back into the request table (cancelAll proof, -DREENTRANT_CONTINUATIONS):
  * QXmppPromise::finish runs the continuation attached to the task synchronously; application code in that continuation may
  * issue a new request.  gh_reentrant selects whether it does; the new request goes through OutgoingIqManager::start (by its
  * verified contract) with an arbitrary id and addressee. */
